@@ -22,7 +22,8 @@ RULE = ("annotations (valid and with one tree-level fault) from the C01 generato
 ASSUMPTIONS = ["relational monitor paired with the XML oracle for containment",
                "prefixing is done on the text of each tag, definitions are prefixed the same way"]
 MIN_MONITOR_EVALS = {"load-order-independent": 30, "prefixed-equals-alone": 1500, "bad-prefix-is-error": 200, "standard-tag-in-library": 4000,
-                     "refusal": 12, "acceptance": 4, "merged-holds-constituent-tag": 2000}
+                     "refusal": 12, "acceptance": 4, "merged-holds-constituent-tag": 2000,
+                     "prefixed-expand-shrink-equals-alone": 200}
 GROUPS = [
     (["8.3.0", "sc:score_2.0.0"], [("", "8.3.0"), ("sc:", "score_2.0.0")]),
     (["8.2.0", "sc:score_1.1.0"], [("", "8.2.0"), ("sc:", "score_1.1.0")]),
@@ -87,6 +88,27 @@ def check_relational(case, rec):
     if a != b:
         rec.violation("error codes differ between the member alone and the prefixed annotation in the group",
                       dict(case, codes_alone=a, codes_group=b))
+    # expanding and shrinking definitions: the prefixed annotation goes through the same steps as the unprefixed one
+    if case["defs"] and case.get("base") == "valid" and case["ns"]:
+        from hed.models.hed_string import HedString
+        from hed.models.definition_dict import DefinitionDict
+        try:
+            ha = HedString(case["text"], alone, DefinitionDict(case["defs"], alone))
+            hb = HedString(case["ptext"], grp, DefinitionDict(case["pdefs"], grp))
+            steps = []
+            for h in (ha, hb):
+                h.expand_defs()
+                e1 = h.get_as_short()
+                codes = sorted(i["code"] for i in h.validate(allow_placeholders=False) if i["severity"] == 1)
+                h.shrink_defs()
+                steps.append((e1, codes, h.get_as_short()))
+        except Exception as ex:  # noqa
+            rec.violation(f"expand/shrink of a prefixed annotation raised {type(ex).__name__}", case)
+            return
+        rec.mon("prefixed-expand-shrink-equals-alone")
+        strip = lambda t: t.replace(case["ns"], "")                 # noqa
+        if (strip(steps[1][0]), steps[1][1], strip(steps[1][2])) != (strip(steps[0][0]), steps[0][1], strip(steps[0][2])):
+            rec.violation("expanding / shrinking definitions in a prefixed annotation differs from the unprefixed one", case)
 
 
 def check_bad_prefix(case, rec):
@@ -158,7 +180,8 @@ def run_relational(shard, rec):
         if rng.random() < 0.004:
             rec.sample(case)
         if i % 4 == 0:
-            bad = rng.choice(["zz:", "q:", "s1:", "s-c:", "a_b:", "9:"])
+            # prefixes that are not loaded - among them the empty one when every member of the group has a prefix
+            bad = rng.choice(["zz:", "q:", "s1:", "s-c:", "a_b:", "9:"] + ([""] * 3 if "" not in loaded else []))
             if bad in loaded:
                 continue
             one = annot.render(items[:1], None, bad) if rng.random() < 0.5 else _with_ns(items, bad)
